@@ -271,6 +271,82 @@ def rule_e2(chk, prog, em, tool, seen):
     return n
 
 
+def rule_e6(chk, prog, em, tool, seen):
+    """E6: on the edge where a result was found negative (an error code) the function does not return a value that may be
+    non-negative -- a byte count, a 'partial success' -- without having stored or reported anything in between"""
+    n = 0
+    for f in prog.functions():
+        if f.ret not in ("i32", "i64"):
+            continue
+        for c in f.calls():
+            if not em.call_is_err(c):
+                continue
+            key = (f.unit.src, f.name, c.line, c.col)
+            if key in seen:
+                continue
+            res = {id(c)}
+            for u in f.uses.get(c, []):
+                if u.op in ("sext", "zext", "trunc"):
+                    res.add(id(u))
+            for u in [x for v in [c] + [y for y in f.uses.get(c, []) if y.op in ("sext", "zext", "trunc")] for x in f.uses.get(v, [])]:
+                if u.op != "icmp" or u.pred not in ("slt", "sge") or not (u.ops[1].is_const and u.ops[1].is_int and u.ops[1].sval == 0):
+                    continue
+                for br in f.uses.get(u, []):
+                    if br.op != "br" or len(br.x["succ"]) != 2:
+                        continue
+                    err_succ = br.x["succ"][0] if u.pred == "slt" else br.x["succ"][1]
+                    seen.add(key)
+                    n += 1
+                    inst = "%s->%s" % (f.name, norm_callee(c.callee) or ("%s.%s" % slot_call(c) if slot_call(c) else "indirect"))
+                    b, prev = err_succ, br.bb
+                    steps = 0
+                    bad = None
+                    while steps < 6:
+                        steps += 1
+                        body = [i for i in b.insts if i.op not in ("br", "ret", "phi", "icmp", "select", "sext", "zext", "trunc")]
+                        if any(i.op in ("call", "store") for i in body):
+                            break
+                        t = b.term
+                        if t.op == "ret":
+                            v = t.ops[0] if t.ops else None
+                            if v is not None and v.is_inst and v.op == "phi" and v.bb is b:
+                                for val, pred in zip(v.ops, v.x["inc"]):
+                                    if pred is prev:
+                                        v = val
+                            leaves, work = [], [v] if v is not None else []
+                            while work:
+                                x = work.pop()
+                                y = x
+                                while y.is_inst and y.op in ("sext", "zext", "trunc"):
+                                    y = y.ops[0]
+                                if y.is_inst and y.op == "select":
+                                    work += [y.ops[1], y.ops[2]]
+                                else:
+                                    leaves.append(y)
+                            for y in leaves:
+                                if y.is_const:
+                                    if y.is_int and y.sval > 0:
+                                        bad = (t, "the positive constant %d" % y.sval)
+                                elif id(y) in res:
+                                    pass
+                                elif y.is_inst and y.op == "call" and em.call_is_err(y):
+                                    pass
+                                else:
+                                    bad = (t, "'%s', which is not the error code" % (getattr(y, "name", None) or y.op if y.is_inst else "a value"))
+                            break
+                        if t.op == "br" and len(t.x["succ"]) == 1:
+                            prev, b = b, t.x["succ"][0]
+                            continue
+                        break
+                    if bad is not None:
+                        chk.violation("E6", inst, c, "on the edge where %s returned a negative error code the function can return %s "
+                                      "(line %d) without storing or reporting the error: the failure is swallowed or deferred to a call "
+                                      "that may never come" % (norm_callee(c.callee) or "the callee", bad[1], bad[0].line))
+                    else:
+                        chk.ok("E6", inst, c, "a negative result is not turned into a non-negative return value", nontrivial=False)
+    return n
+
+
 def alloc_sites(prog, f):
     for c in f.calls():
         n = norm_callee(c.callee)
@@ -751,7 +827,7 @@ def run(chk):
         "sqfs_writer_finish, cleanup unlinks on failure; all four mains: exit status 0 unreachable from every failure "
         "edge; submit failures propagate.")
     chk.assumptions = ["that the handling of a consumed error is *right* is not decided, only that the error reaches a decision"]
-    seen1, seen2, seen3, seen4, seen5, seen6 = set(), set(), set(), set(), set(), set()
+    seen1, seen2, seen3, seen4, seen5, seen6, seen7 = set(), set(), set(), set(), set(), set(), set()
     n1 = n3 = 0
     for tool in TOOLS:
         prog = load_program(tool)
@@ -760,6 +836,7 @@ def run(chk):
         rule_e2(chk, prog, em, tool, seen2)
         rule_e4(chk, prog, em, tool, seen5)
         rule_e5(chk, prog, em, tool, seen6)
+        rule_e6(chk, prog, em, tool, seen7)
         n3 += rule_e3(chk, prog, tool, seen3)
         rule_cleanup(chk, prog, tool)
         if tool == "gensquashfs":
@@ -775,6 +852,7 @@ def run(chk):
     chk.floor("E3", 120)
     chk.floor("E4", 60)
     chk.floor("E5", 15)
+    chk.floor("E6", 20)
     chk.floor("K1-cleanup", 9)
     chk.floor("K1-status", 4)
     chk.floor("E1-submit", 1)
